@@ -269,3 +269,46 @@ func VerifC18_Selector() {
 	zzverif.Assert(zzverif.Iff(got, s.Matches(labels.Set(o.Labels))), "C18/semantics/selector-delegates")
 	zzverif.Reach("C18/selector")
 }
+
+// VerifC18_History: Accept is a function of the object alone. The verdict on o is the
+// reference verdict whatever object h the same filter instance was asked about before
+// (and asking again about h afterwards still gives h's reference verdict).
+func VerifC18_History() {
+	nl := zzverif.Param("OLABELS", 2)
+	h := VSymPod("h", nl)
+	o := VSymPod("o", nl)
+	var f Filter
+	var ref func(metav1.Object) bool
+	subset := func(match map[string]string) func(metav1.Object) bool {
+		return func(x metav1.Object) bool {
+			want := true
+			for k, v := range match {
+				ov, has := x.GetLabels()[k]
+				want = zzverif.And(want, has, ov == v)
+			}
+			return want
+		}
+	}
+	switch zzverif.NondetInt("hist.kind", 0, 3) {
+	case 0:
+		match := VSymLabels("match", zzverif.Param("PAIRS", 2))
+		f, ref = Labels(match), subset(match)
+	case 1:
+		ls := VSymLabelSelector("sel")
+		f, ref = LabelSelector(ls), func(x metav1.Object) bool { return VRefLabelSelector(ls, x.GetLabels()) }
+	case 2:
+		set := VSymLabels("set", zzverif.Param("PAIRS", 2))
+		f, ref = Selector(labels.SelectorFromSet(set)), subset(set)
+	default:
+		m1 := VSymLabels("m1", 1)
+		m2 := VSymLabels("m2", 1)
+		r1, r2 := subset(m1), subset(m2)
+		f = And(Labels(m1), Not(Labels(m2)))
+		ref = func(x metav1.Object) bool { return zzverif.And(r1(x), zzverif.Not(r2(x))) }
+	}
+	first := f.Accept(h)
+	zzverif.Assert(zzverif.Iff(first, ref(h)), "C18/history/first")
+	zzverif.Assert(zzverif.Iff(f.Accept(o), ref(o)), "C18/history/second")
+	zzverif.Assert(zzverif.Iff(f.Accept(h), first), "C18/history/again")
+	zzverif.Reach("C18/history")
+}
